@@ -8,7 +8,7 @@ from vlib import Evidence, tlc_judge
 ev = Evidence("binding-demo")
 out = {}
 # Extract step-level: corrupt the logged match end of one event / drop the forward event
-obs = vlib.impl_map("drv_extract", "run_steps", [{"text": "Foo v. Bar, 1 U.S. 1, 5 (1999) (holding x). Bar, 1 U.S., at 7. Id. at 9; Bar, supra, at 3."}])
+obs = vlib.impl_map("drv_extract", "run_steps", [{"text": "Foo v. Bar, 1 U.S. 1, 5 (1999) (holding x). Bar, 1 U.S., at 7. Id. at 9; Bar, supra, at 3."}], env={vlib.GUARD: "1"})
 good = [{"cites": obs[0]["cites"]}]
 bad1 = copy.deepcopy(good); bad1[0]["cites"][0]["fwd"]["mend"] += 1
 bad2 = copy.deepcopy(good); bad2[0]["cites"][1]["back"]["present"] = False
